@@ -252,20 +252,24 @@ func (c *Cache) Filespace(subPath string) (filesystem.Filespace, error) {
 func (c *Cache) Remove(dest string) (err error) {
 	dest = varutil.CleanPath(dest)
 	if c.bufferFS.IsExist(dest) {
-		err = c.bufferFS.Remove(dest)
+		if err = c.bufferFS.Remove(dest); err != nil {
+			return err
+		}
 	}
 	c.changeRemove(dest, true)
-	return err
+	return nil
 }
 
 // RemoveAll delete node by path recursively
 func (c *Cache) RemoveAll(dest string) (err error) {
 	dest = varutil.CleanPath(dest)
 	if c.bufferFS.IsExist(dest) {
-		err = c.bufferFS.RemoveAll(dest)
+		if err = c.bufferFS.RemoveAll(dest); err != nil {
+			return err
+		}
 	}
 	c.changeRemoveAll(dest, true)
-	return err
+	return nil
 }
 
 // Lstat returns a FileInfo describing the named file.
